@@ -34,7 +34,8 @@ STYLES = ['google', 'freeform', 'auto']
 def required_cells(tier):
     return ['agree:google', 'agree:freeform', 'agree:auto', 'feature:async', 'feature:method:prop',
             'feature:method:static', 'feature:method:cls', 'feature:method:wrapped', 'feature:top:deco',
-            'feature:top:main', 'feature:method:setter', 'feature:top:ctxmgr', 'feature:top:subclass', 'feature:module-dir-hook', 'feature:top:handler', 'feature:top:matcharm', 'feature:top:tryelse', 'feature:top:forbody', 'feature:method:setter_stacked', 'feature:method:getter_again', 'feature:top:notmain', 'feature:method:ctxmethod']
+            'feature:top:main', 'feature:method:setter', 'feature:top:ctxmgr', 'feature:top:subclass', 'feature:module-dir-hook', 'feature:top:handler', 'feature:top:matcharm', 'feature:top:tryelse', 'feature:top:forbody', 'feature:method:setter_stacked', 'feature:method:getter_again', 'feature:top:notmain', 'feature:method:ctxmethod',
+            'feature:encoding:utf-8', 'feature:encoding:utf-8-sig', 'feature:encoding:latin-1']
 
 
 def collect(path, style, analysis):
@@ -49,8 +50,21 @@ def check_module(ctx, idx, seed):
     spec = gm.ModuleGen(rng, idx).generate()
     modname = 'sd_%d_%d_%d_zz' % (ctx.seed, ctx.shard, idx)
     path = os.path.join(ctx.tmp, modname + '.py')
-    with open(path, 'w') as f:
-        f.write(spec.src)
+    # the encoding of the file: utf-8, utf-8 with a byte order mark, or latin-1 declared by a cookie; a doctest with
+    # non-ASCII text shows whether both analyses read the same characters (findings F33 / F33b)
+    enc = ['utf-8', 'utf-8', 'utf-8-sig', 'latin-1'][idx % 4]
+    src = spec.src
+    if enc != 'utf-8' or idx % 8 == 0:
+        m = 'U%dx9999_0' % idx
+        src += ('\ndef enc_zz():\n    """\n    Example:\n        >>> print("caf\xe9 na\xefve %s")\n        caf\xe9 na\xefve %s\n    """\n'
+                % (m, m))
+        spec.inventory['enc_zz'] = gm.DocSpec('google', [m])
+        spec.features.add('encoding:' + enc)
+        if enc == 'latin-1':
+            src = '# -*- coding: latin-1 -*-\n' + src
+        spec.src = src
+    with open(path, 'w', encoding=enc) as f:
+        f.write(src)
     case = {'index': idx, 'case_seed': seed}
     kinds = set(f for f in spec.features if f.startswith(('method:', 'top:')))
     if len(spec.inventory) >= 3 and len(kinds) >= 2:
